@@ -34,7 +34,7 @@ HEADER = "From Aqua Require Import Base Json Cid CidCases.\nOpen Scope N_scope.\
 
 FLOATS = [("1.5", ["15e-1", "1.50", "0.15E1"]), ("100.0", ["1e2", "1E2", "1.0e+2", "100.00"]), ("0.1", ["1e-1", "0.10"]),
           ("-2.5", ["-25e-1", "-2.50"]), ("1e300", ["1E300", "1.0e300", "10e299"]), ("1e-7", ["0.0000001", "1.0E-7"]),
-          ("3.141592653589793", ["3.1415926535897930", "314.1592653589793e-2"]), ("0.0", ["0e0", "0.00", "0.0e5"]),
+          ("3.141592653589793", ["314.1592653589793e-2", "0.3141592653589793E1"]), ("0.0", ["0e0", "0.00", "0.0e5"]),
           ("-0.0", ["-0e0", "-0.00"]), ("1.8446744073709552e19", ["18446744073709551616", "18446744073709551616.0"]),
           ("123456.789", ["1.23456789e5", "123456.7890"]), ("5e-324", ["4.9406564584124654e-324"])]
 INTS = [0, 1, -1, 2, 7, 42, 100, 255, 2**31 - 1, -2**31, 2**32, 2**53, 2**53 + 1, 2**63 - 1, -2**63, 2**63, 2**64 - 1]
